@@ -26,6 +26,7 @@ DEPS = {
  'count': ['count', 'fresh'],
  'orph_virt': ['orph_virt', 'fresh', 'children', 'virt'],
  'incall': ['incall', 'mem_room'],
+ 'count_le': ['count_le'],
 }
 ALL = list(DEPS)
 
@@ -33,7 +34,7 @@ ALL = list(DEPS)
 def block(hi='hi', indent='  ', pre='', extra_simp='', extra_grind=''):
     """pre: tactic text run at the start of each clause (e.g. an unfold)."""
     lines = []
-    tac = "(intros; (try simp only [hubf%s] at *); grind [mem_removeL, nodup_removeL, removeL_nil%s])" % (extra_simp, extra_grind)
+    tac = "(intros; (try simp only [hubf%s] at *); grind [mem_removeL, nodup_removeL, removeL_nil, length_removeL_le%s])" % (extra_simp, extra_grind)
     for c, deps in DEPS.items():
         haves = "; ".join("have f_%s := %s.%s" % (d, hi, d) for d in deps)
         allh = "; ".join("have f_%s := %s.%s" % (d, hi, d) for d in ALL)
